@@ -7,8 +7,15 @@
     states from which they succeed (seen-set, depth, current key only decide whether an error
     is raised).
   * `RootEq` / `rootEq` : the evaluator reads the root mapping only through `Mapping.get`.
-  * lemmas on `descend` through raw mappings (`rawPath`), `finalLoop`, lookup in `eraseEs`,
-    the per-entry description of `interpEs`, and `List.Perm` facts for `lookup`.
+  * `X_indep` : the same across different amounts of fuel (via `Lemmas/Fuel`).
+  * `rawPath`, `descend_raw`, `finalLoop_cases`, `finalLoop_then_interp`, `interp_rawPath` :
+    the pieces of `Token::resolve` for a path through raw mappings.
+  * `lookup_perm`, `perm_of_lookup_eq`, `wf_map_perm` : `List.Perm` facts for entry lists.
+  * `interpEs_entries`/`flatEs_entries` (what a successful `Mapping::interpolate`/`flattened`
+    did to each entry) and the converses `interpEs_build`/`flatEs_build` (any entry order).
+  Note: `Lemmas/MappingL` cannot be imported next to `Lemmas/ClosedL` (both declare
+  `Reclass.mem_setInsert`), nor next to `Lemmas/Fuel` (`Reclass.lookup_mem`); the few `lookup`
+  facts needed are re-proved here in namespace `Reclass.Refs`.
 -/
 import Reclass.Props.C07
 import Reclass.Lemmas.Fuel
